@@ -317,7 +317,9 @@ func matrix(args []string) {
 	unions := [][]any{{0}, {-1}, {0, 1}, {1, 0}, {2, 0, 1}, {-1, 0}, {0, -1}, {0, 0}, {1, 1, 0}, {5, 0}, {-7, 1}, {7, -7}, {0, 2, 4},
 		{"a"}, {"a", "b"}, {"b", "a"}, {"c", "a", "b"}, {"a", "a"}, {"zz", "a"}, {"a", 0}, {0, "a"}, {"b", 1, "a", 0}, {-2, "c", 1}, {"d"}, {"d", "a"},
 		// out-of-range / absent members at every position of the list, next to members that exist
-		{-9, 0}, {0, 5}, {0, 9, 1}, {9, 0, 1}, {0, 1, 9}, {1, -9, 0}, {"a", "zz"}, {"a", "zz", "b"}, {"zz", "b", "a"}}
+		{-9, 0}, {0, 5}, {0, 9, 1}, {9, 0, 1}, {0, 1, 9}, {1, -9, 0}, {"a", "zz"}, {"a", "zz", "b"}, {"zz", "b", "a"},
+		// mixed unions in which only the members of ONE kind exist (a collection that is Keyed and Indexed at once must try both kinds)
+		{"zz", 1}, {-1, "zz"}, {"zz", 0, "yy"}, {9, "a"}, {"a", -9}}
 	for _, u := range unions {
 		for _, ct := range all {
 			v++
@@ -932,8 +934,32 @@ func stepZero(c *Case) bool {
 	return false
 }
 
+// maxLenAll: the longest array or object (a collection that is Keyed and Indexed takes slices over its members)
+func maxLenAll(n jl.Node) int {
+	m := len(jl.Elems(n))
+	if len(jl.Vals(n)) > m {
+		m = len(jl.Vals(n))
+	}
+	for _, e := range jl.Elems(n) {
+		if x := maxLenAll(e); x > m {
+			m = x
+		}
+	}
+	for _, e := range jl.Vals(n) {
+		if x := maxLenAll(e); x > m {
+			m = x
+		}
+	}
+	return m
+}
+
+var multiThin = 1
+
 func runCase(c *Case, set string, only string) {
 	maxLen := jl.MaxArrLen(c.Data)
+	if set == "c11" {
+		maxLen = maxLenAll(c.Data)
+	}
 	for _, f := range c.Path {
 		if f["f"] == "slice" {
 			f["pr"] = jl.Probe(f, maxLen)
@@ -955,9 +981,18 @@ func runCase(c *Case, set string, only string) {
 	}
 	reps := []string{"simple", "gen"}
 	if set == "c11" {
-		reps = jl.Reps
+		reps = append([]string{}, jl.Reps...)
+		// the multi-interface representations: every case of the TLC cell table and every matrix case whose focus is not a
+		// slice; of the slice matrix and the random cases one in multiThin (quick tier 4, thorough 1)
+		thin := c.Src != "cells"
+		if c.Src == "matrix" && 1 <= c.Fx && c.Fx <= len(c.Path) && c.Path[c.Fx-1]["f"] != "slice" {
+			thin = false
+		}
+		if !thin || multiThin <= 1 || c.ID%multiThin == 0 {
+			reps = append(reps, jl.MultiReps...)
+		}
 		if stepZero(c) {
-			reps = []string{"simple", "gen", "struct", "pstruct", "keyed"}
+			reps = []string{"simple", "gen", "struct", "pstruct", "keyed", "both"}
 		}
 	}
 	if only != "" {
@@ -965,6 +1000,7 @@ func runCase(c *Case, set string, only string) {
 	}
 	groups := map[string]*obs{}
 	order := []string{}
+	simpleKey := ""
 	for _, rep := range reps {
 		for ri, rt := range routes {
 			if ri > 0 && rep != "simple" && set == "c11" {
@@ -982,6 +1018,25 @@ func runCase(c *Case, set string, only string) {
 			}
 			b, _ := json.Marshal(o)
 			key := string(b)
+			if rep == "both" {
+				// judged against the reading in which an object is also indexed (TraceJsonPath!IsBoth): a group of its own
+				key = "both|" + key
+			}
+			// struct representations: an observation equal to the one made on simple data joins that group (nothing specific to
+			// structs); any other gets a group of its own family, because its deviations are compared with the as-implemented
+			// struct reading (TraceJsonPath!SIOf) and must not be merged with those of typed slices, arrays, ...
+			if rep == "struct" || rep == "pstruct" || rep == "mstruct" || rep == "pmstruct" {
+				if key != simpleKey {
+					if rep == "struct" || rep == "pstruct" {
+						key = "s|" + key
+					} else {
+						key = "m|" + key
+					}
+				}
+			}
+			if rep == "simple" && rt.name == "built" {
+				simpleKey = key
+			}
 			if g, ok := groups[key]; ok {
 				g.As = append(g.As, rep+"/"+rt.name)
 			} else {
@@ -1000,6 +1055,7 @@ func runCase(c *Case, set string, only string) {
 func execCases(args []string) {
 	fs := flag.NewFlagSet("exec", flag.ExitOnError)
 	set := fs.String("set", "c05", "c05 | c11")
+	fs.IntVar(&multiThin, "multi-thin", 1, "run the multi-interface representations on one in N of the slice-matrix and random cases")
 	one := fs.String("one", "", "isolated mode: run the single case on stdin on this representation only, with a 2 s / 400 MB watchdog")
 	fs.Parse(args)
 	if *one != "" {
